@@ -753,6 +753,7 @@ class Node(schemdraw.elements.Element):
         self.anchors['NW'] = (-0.5, 0.1)
         self.anchors['SE'] = (0.5, -0.3)
         self.anchors['SW'] = (-0.5, -0.3)
+        self.segments.append(schemdraw.Segment([(0, 0)]))
 
     @property
     def type(self) -> str:
